@@ -375,7 +375,20 @@ def trunc_div(a, b):
 
 
 def evaluate(e, lookup=None):
-    """lookup(name) -> Val or None (unknown).  Raises Undefined / DimErr / OutOfScope."""
+    """lookup(name) -> Val or None (unknown).  Raises Undefined / DimErr / OutOfScope.
+    A result carries .f = True when a machine float took part (roots); its value is then only
+    meaningful up to float precision and callers compare with a tolerance."""
+    r = _evaluate(e, lookup)
+    return r
+
+
+def _flt(res, *ops):
+    if any(o.f for o in ops):
+        res.f = True
+    return res
+
+
+def _evaluate(e, lookup=None):
     k = e[0]
     if k == "num":
         return Val(e[1])
@@ -389,39 +402,41 @@ def evaluate(e, lookup=None):
     if k == "quote":
         return Val(Fraction(1), {e[1]: 1})
     if k == "pos":
-        return evaluate(e[1], lookup)
+        return _evaluate(e[1], lookup)
     if k == "neg":
-        a = evaluate(e[1], lookup)
-        return Val(-a.v, a.d)
+        a = _evaluate(e[1], lookup)
+        return _flt(Val(-a.v, a.d), a)
     if k == "mul":
         acc = Val(Fraction(1))
         for t in e[1]:
-            b = evaluate(t, lookup)
-            acc = Val(acc.v * b.v, dmul(acc.d, b.d))
+            b = _evaluate(t, lookup)
+            acc = _flt(Val(acc.v * b.v, dmul(acc.d, b.d)), acc, b)
             if _size(acc.v) > BIT_BUDGET * 8:
                 raise OutOfScope("too large")
         return acc
     if k == "eq":
-        return evaluate(e[2], lookup)
+        return _evaluate(e[2], lookup)
     if k == "bin":
         op = e[1]
-        a = evaluate(e[2], lookup)
-        b = evaluate(e[3], lookup)
+        a = _evaluate(e[2], lookup)
+        b = _evaluate(e[3], lookup)
         if op == "*":
-            return Val(a.v * b.v, dmul(a.d, b.d))
+            return _flt(Val(a.v * b.v, dmul(a.d, b.d)), a, b)
         if op in ("/", "|"):
             if b.v == 0:
                 raise Undefined("division by zero")
-            return Val(a.v / b.v, dmul(a.d, b.d, -1))
+            return _flt(Val(a.v / b.v, dmul(a.d, b.d, -1)), a, b)
         if op in ("+", "-"):
             if a.d != b.d:
                 raise DimErr("sum of different dimensionalities")
-            return Val(a.v + b.v if op == "+" else a.v - b.v, a.d)
+            return _flt(Val(a.v + b.v if op == "+" else a.v - b.v, a.d), a, b)
         if op == "mod":
             if a.d != b.d:
                 raise DimErr("mod of different dimensionalities")
             if b.v == 0:
                 raise Undefined("mod by zero")
+            if a.f or b.f:
+                raise OutOfScope("float mod")
             return Val(a.v - b.v * trunc_div(a.v, b.v), a.d)
         if op == "^":
             if b.d:
@@ -434,14 +449,22 @@ def evaluate(e, lookup=None):
                             raise DimErr("root must give integer dimensions")
                     if a.v < 0:
                         raise Undefined("root of negative")
-                    raise OutOfScope("root (float)")
+                    if abs(n) >= 1 << 31:
+                        raise OutOfScope("root degree")
+                    try:
+                        fv = float(a.v) ** (1.0 / n)
+                        r = Val(Fraction(fv), {kk: p // n for kk, p in a.d.items()})
+                    except (OverflowError, ValueError, ZeroDivisionError):
+                        raise OutOfScope("root out of float range")
+                    r.f = True           # rink computes roots in machine floats
+                    return r
                 if a.d:
                     raise DimErr("non-integer power of dimensioned value")
                 raise OutOfScope("non-integer exponent")
             n = b.v.numerator
             if abs(n) >= 1 << 31:
                 raise OutOfScope("exponent beyond rink's documented limit")
-            return Val(fpow(a.v, n), dpow(a.d, n))
+            return _flt(Val(fpow(a.v, n), dpow(a.d, n)), a, b)
         if op in ("<<", ">>"):
             if b.d:
                 raise DimErr("shift count with dimension")
@@ -453,10 +476,12 @@ def evaluate(e, lookup=None):
             if abs(n) > BIT_BUDGET * 4:
                 raise OutOfScope("too large")
             f = Fraction(2) ** (n if op == "<<" else -n)
-            return Val(a.v * f, a.d)
+            return _flt(Val(a.v * f, a.d), a)
         if op in ("and", "or", "xor"):
             if a.d or b.d:
                 raise DimErr("bit operator on dimensioned value")
+            if a.f or b.f:
+                raise OutOfScope("float bit operator")
             if a.v.denominator != 1 or b.v.denominator != 1:
                 raise Undefined("bit operator on non-integers")
             x, y = a.v.numerator, b.v.numerator
